@@ -130,6 +130,20 @@ def gen_scenario(rng, *, family='well', cyclic=False, init_env=False,
     if scn['graph_api'] == 'nested':
         if ntask >= 3:
             make_group(rng, scn)
+            if rng.random() < 0.5:
+                # a second sub-graph node, grafted before or after the first:
+                # a bag of tasks that have no hard edge at all (or nothing)
+                grp = scn['group']
+                busy = set(grp['members']) | set(grp['deps']) | \
+                    set(grp['dependees'])
+                for i, tsk in enumerate(tasks):
+                    if tsk['hard']:
+                        busy.add(i)
+                        busy.update(tsk['hard'])
+                free = [i for i in range(ntask) if i not in busy]
+                scn['bag'] = {'members': [i for i in free
+                                          if rng.random() < 0.7],
+                              'at': rng.randrange(0, ntask + 2)}
         else:
             scn['graph_api'] = 'add'
     if not init_env and not wide and rng.random() < 0.06:
@@ -196,6 +210,9 @@ def gen_scenario(rng, *, family='well', cyclic=False, init_env=False,
                     start = 1000.0 + rng.randrange(100)
                     ent['start_clock'] = start
                     ent['end_clock'] = start + rng.randrange(1, 50)
+                if rng.random() < 0.2:
+                    # the earlier run left an open handle among the results
+                    ent['handle'] = True
                 scn['init_env'][str(i)] = ent
     return scn
 
@@ -227,7 +244,7 @@ def make_group(rng, scn):
         scn['group'] = {'members': [], 'inner': {}, 'deps': gdeps,
                         'dependees': gdependees, 'dependees_in': side}
         return
-    size = rng.choice((2, 2, 3)) if ntask > 3 else 2
+    size = rng.choice((1, 2, 2, 3)) if ntask > 3 else rng.choice((1, 2, 2))
     lo = rng.randrange(0, ntask - size + 1)
     members = list(range(lo, lo + size))
     mset = set(members)
@@ -387,6 +404,13 @@ def scripted_return(scn, i, status_enum, run_tag='r'):
     def pick(*choices):
         return choices[var % len(choices)]
 
+    if out in ('ok', 'failed') and not tsk.get('echo_status') and \
+            var % 8 in (3, 5, 6):
+        # an update that is a mapping without being a dict
+        import types
+        import collections
+        upd = {3: types.MappingProxyType, 5: collections.UserDict,
+               6: collections.ChainMap}[var % 8](upd)
     if out == 'ok':
         if tsk.get('echo_status'):
             # the task hands back (a copy of) its own entry, status included,
@@ -687,12 +711,25 @@ def build_graphs(scn, mods, objs):
                 sub.add_dependency(objs[i], on=objs[j])
     # the sub-graph node is not always the last node of its graph
     sub_pos = (scn.get('salt', 0) // 7) % (len(by_rank) + 1) if group else -1
+    bag = scn.get('bag') if group else None
+    bagged = set(bag['members']) if bag else set()
+    bag_node = None
+    if bag:
+        bag_node = dg()
+        for i in bag['members']:
+            bag_node.add_node(objs[i])
     for pos, i in enumerate(by_rank):
+        if bag and pos == bag['at']:
+            hard.add_node(bag_node)
         if pos == sub_pos:
             graphs[gkey].add_node(sub)
         for key, graph in graphs.items():
+            if key == 'hard' and i in bagged:
+                continue        # (in the hard graph through the bag)
             if i not in members or key != gkey:
                 graph.add_node(objs[i])
+    if bag and bag['at'] >= len(by_rank):
+        hard.add_node(bag_node)
     if group:
         graphs[gkey].add_node(sub)
         for j in group['deps']:
@@ -723,7 +760,8 @@ def build_graphs(scn, mods, objs):
 
 def initial_env(scn, mods):
     env = _initial_env(scn, mods)
-    if scn.get('pickled_env'):
+    if scn.get('pickled_env') and not any(
+            ent.get('handle') for ent in scn.get('init_env', {}).values()):
         # the environment comes straight out of a file (Env.from_file)
         import pickle
         env = pickle.loads(pickle.dumps(env))
@@ -738,6 +776,8 @@ def _initial_env(scn, mods):
         name = scn['tasks'][int(key)]['name']
         new = dict(ent)
         new['status'] = status_enum[ent['status']]
+        if new.pop('handle', None):
+            new['handle'] = HANDLE
         dct[name] = new
     return env_cls(dct)
 
